@@ -31,7 +31,8 @@ ASSUMPTIONS = [
 FLOORS = {'if_cases': 500, 'poisoned_unselected': 200, 'andor_cases': 500,
           'not_cases': 50, 'spy_calls': 1000, 'omitted_else': 20,
           'reassigned_cases': 100, 'foreign_namespace_evaluations': 10,
-          'long_range_cases': 32, 'blank_only_cases': 12}
+          'long_range_cases': 32, 'blank_only_cases': 12,
+          'extracted_models': 20, 'empty_text_prelude_evaluations': 6}
 ANCHOR_FUNCS = {
     'xlcalculator/xlfunctions/logical.py': ['IF', 'AND', 'OR', 'NOT'],
     'xlcalculator/ast_nodes.py': ['FunctionNode.eval'],
@@ -282,7 +283,24 @@ def run(ctx):
     truth_values = [True, False, 0, 3, None]
     n_formulas = (120000 if thorough else 6000) // ctx.nshards
 
+    # ---- what this process did before: AND / OR have met empty texts (a text
+    # is not a truth value the statement speaks about; whatever comes out, the
+    # evaluations that follow are judged as usual) ---------------------------
+    pre = {'A1': '=""', 'A2': 0, 'A3': False, 'P1': '=AND(A1,TRUE)',
+           'P2': '=OR(A1,FALSE)', 'P3': '=AND("",TRUE)', 'P4': '=OR(A1:A3)',
+           'P5': '=AND(A1:A1)', 'P6': '=IF(A1="",AND(A1,A1),0)'}
+    try:
+        ev_pre = Evaluator(subject.compile_dict(pre))
+        for k in ('P1', 'P2', 'P3', 'P4', 'P5', 'P6'):
+            subject.outcome_of(lambda: ev_pre.evaluate(f'{S}!{k}'))
+            ctx.event('empty_text_prelude_evaluations')
+        ev_pre.set_cell_value(f'{S}!A2', '')
+        subject.outcome_of(lambda: ev_pre.evaluate(f'{S}!P4'))
+    except Exception as e:  # noqa
+        ctx.note(f'empty-text prelude raised {e!r}')
+
     batch = []
+    groups_done = [0]
 
     def flush():
         nonlocal batch
@@ -318,6 +336,21 @@ def run(ctx):
                              {'formula': ref.render(it['ast'])},
                              monitor='construction', group='compile')
                 continue
+            groups_done[0] += 1
+            if groups_done[0] % 3 == 0:
+                # a sub-model with only the formulas in focus: the cells they
+                # read (constants that are FALSE or 0 among them) come along
+                from xlcalculator import ModelCompiler
+                try:
+                    model = ModelCompiler.extract(
+                        model, focus=[f'{S}!P{j + 1}'
+                                      for j in range(len(items))])
+                    ctx.event('extracted_models')
+                except Exception as e:  # noqa
+                    ctx.fail(f'extract(focus = the {len(items)} formulas) '
+                             f'raised {e!r}', {'cells': cells},
+                             monitor='construction', group='extract')
+                    continue
             ev = Evaluator(model)
             wb = ref.Workbook(wbcells)
             wb.cells[(S, 26, 1)] = ('f', ('ref', None, 26, 1, False, False))
